@@ -11,7 +11,7 @@ var c04Oracle = icOracle{status: true}
 func C04(c *mc.Ctx) {
 	alphabet := []string{
 		"req:p1:n:2", "rc:p1:n:s", "rc:p1:n:f", "rc:p1:n:r", "empty", "req:p2:n:2", "rc:p2:n:f", "rc:p2:n:s",
-		"rc:p1:d:s", "rc:p1:d:f", "rc:p1:d:r", "req:p1:n:2+rc:p1:n:f",
+		"rc:p1:d:s", "rc:p1:d:f", "rc:p1:d:r", "req:p1:n:2+rc:p1:n:f", "req:p1:n:2+req:p1:n:2", "rc:p1:n:s+rc:p1:n:s",
 	}
 	depth := 4
 	if !c.Quick() {
